@@ -107,3 +107,112 @@ pub fn history_target(data: &[u8]) {
     panic!("PV-FUZZ-VIOLATION {}", f.msg);
   }
 }
+
+// ---------------------------------------------------------------------------------------------------------------------
+// Campaign driver used by the thorough tier: seed corpus from the proptest generators, `cargo +nightly fuzz run`,
+// crash artifacts converted into JSON replay files.
+
+use proptest::strategy::{Strategy, ValueTree};
+
+pub fn write_seed_corpus(prop: &str, dir: &std::path::Path, n: usize, seed: u64) -> std::io::Result<usize> {
+  std::fs::create_dir_all(dir)?;
+  let rng = proptest::test_runner::TestRng::from_seed(proptest::test_runner::RngAlgorithm::ChaCha, &crate::driver::derive_seed(seed, &format!("{}/corpus", prop), 0));
+  let mut runner = proptest::test_runner::TestRunner::new_with_rng(proptest::test_runner::Config::default(), rng);
+  let mut written = 0;
+  if prop == "C10" || prop == "C11" {
+    let st = dag::case_strategy(8, 40);
+    for i in 0..n {
+      if let Ok(t) = st.new_tree(&mut runner) { std::fs::write(dir.join(format!("seed-{}", i)), dag_case_to_bytes(&t.current()))?; written += 1; }
+    }
+  } else {
+    let cfg = fuzz_cfg(prop);
+    let st = gen::genome_strategy(&cfg);
+    for i in 0..n {
+      if let Ok(t) = st.new_tree(&mut runner) { std::fs::write(dir.join(format!("seed-{}", i)), genome_to_bytes(&t.current(), &cfg))?; written += 1; }
+    }
+  }
+  Ok(written)
+}
+
+/// Runs a libFuzzer campaign for `prop`; records statistics in the report and converts crashes into violations.
+pub fn campaign(prop: &str, runs_per_worker: u64, workers: u32, report: &mut crate::driver::Report) {
+  use serde_json::json;
+  let root = crate::driver::verif_root();
+  let fuzz_dir = root.join("harness").join("fuzz");
+  let target = if prop == "C10" || prop == "C11" { "dag_ops" } else { "history" };
+  let work = std::env::temp_dir().join(format!("pv-fuzz-{}-{}", prop, std::process::id()));
+  let corpus = work.join("corpus");
+  let artifacts = work.join("artifacts");
+  let _ = std::fs::remove_dir_all(&work);
+  let _ = std::fs::create_dir_all(&artifacts);
+  let seeded = write_seed_corpus(prop, &corpus, 200, report.seed).unwrap_or(0);
+  // Committed golden inputs, if any.
+  let golden = root.join("corpus").join(target);
+  if let Ok(rd) = std::fs::read_dir(&golden) { for e in rd.flatten() { let _ = std::fs::copy(e.path(), corpus.join(e.file_name())); } }
+  let seed = (report.seed % 1_000_000) + 1; // libFuzzer: 0 means random
+  let out = std::process::Command::new("cargo")
+    .current_dir(&fuzz_dir)
+    .env("CARGO_NET_OFFLINE", "true")
+    .env("PV_FUZZ_PROP", prop)
+    .env("PV_VERIF_ROOT", &root)
+    .args(["+nightly", "fuzz", "run", target, corpus.to_str().unwrap(), "--"])
+    .arg(format!("-artifact_prefix={}/", artifacts.display()))
+    .arg(format!("-runs={}", runs_per_worker))
+    .arg(format!("-seed={}", seed))
+    .args(["-max_len=1024", "-len_control=0", "-print_final_stats=1", "-rss_limit_mb=4096"])
+    .arg(format!("-jobs={}", workers)).arg(format!("-workers={}", workers))
+    .output();
+  let mut runs = 0u64;
+  let mut new_units = 0u64;
+  let mut cov = 0u64;
+  match out {
+    Err(e) => { report.extra.insert("fuzz_skipped".into(), json!(format!("cargo +nightly fuzz not runnable: {}", e))); }
+    Ok(o) => {
+      // Per-job logs fuzz-<n>.log are written to the fuzz dir's cwd.
+      let mut texts = vec![String::from_utf8_lossy(&o.stderr).to_string(), String::from_utf8_lossy(&o.stdout).to_string()];
+      for j in 0..workers { if let Ok(t) = std::fs::read_to_string(fuzz_dir.join(format!("fuzz-{}.log", j))) { texts.push(t); let _ = std::fs::remove_file(fuzz_dir.join(format!("fuzz-{}.log", j))); } }
+      for t in &texts {
+        for line in t.lines() {
+          if let Some(x) = line.strip_prefix("stat::number_of_executed_units:") { runs += x.trim().parse::<u64>().unwrap_or(0); }
+          if let Some(x) = line.strip_prefix("stat::new_units_added:") { new_units += x.trim().parse::<u64>().unwrap_or(0); }
+          if line.contains(" cov: ") { if let Some(c) = line.split(" cov: ").nth(1).and_then(|r| r.split_whitespace().next()).and_then(|c| c.parse::<u64>().ok()) { cov = cov.max(c); } }
+        }
+      }
+      if runs == 0 && !o.status.success() {
+        let tail: String = texts[0].lines().rev().take(6).collect::<Vec<_>>().join(" | ");
+        report.extra.insert("fuzz_skipped".into(), json!(format!("fuzz run failed to start: {}", tail)));
+      }
+    }
+  }
+  // Crashes.
+  let mut crashes = 0;
+  if let Ok(rd) = std::fs::read_dir(&artifacts) {
+    let mut files: Vec<_> = rd.flatten().map(|e| e.path()).collect();
+    files.sort();
+    for f in files {
+      let Ok(data) = std::fs::read(&f) else { continue; };
+      crashes += 1;
+      if prop == "C10" || prop == "C11" {
+        let case = dag_case_from_bytes(&data);
+        let which = if prop == "C10" { Tag::C10 } else { Tag::C11 };
+        let mut facts = dag::DagFacts::default();
+        let fails = std::panic::catch_unwind(std::panic::AssertUnwindSafe(|| dag::run_case(&case, true, &mut facts))).unwrap_or_else(|_| vec![(which, "the graph panicked".to_string())]);
+        if let Some((_, msg)) = fails.into_iter().find(|(t, _)| *t == which) {
+          report.violation("ops", &serde_json::to_value(&case).unwrap(), &Failure::new(format!("(found by libFuzzer) {}", msg)), &dag::pretty(&case));
+        }
+      } else if let Err(fl) = history_check(&data, prop) {
+        let case = case_from_bytes(&data, prop);
+        report.violation("case", &serde_json::to_value(&case).unwrap(), &Failure::new(format!("(found by libFuzzer) {}", fl.msg)), &crate::lang::pretty_case(&case));
+      }
+      if report.violations.len() >= 3 { break; }
+    }
+  }
+  report.stats.evaluations += runs;
+  report.extra.insert("fuzz_target".into(), json!(target));
+  report.extra.insert("fuzz_runs".into(), json!(runs));
+  report.extra.insert("fuzz_new_units".into(), json!(new_units));
+  report.extra.insert("fuzz_edge_coverage".into(), json!(cov));
+  report.extra.insert("fuzz_seed_corpus".into(), json!(seeded));
+  report.extra.insert("fuzz_crash_artifacts".into(), json!(crashes));
+  let _ = std::fs::remove_dir_all(&work);
+}
